@@ -521,3 +521,50 @@ def groups_possibly_unset(pattern):
                     walk(av[2], True)
     walk(list(tree), False)
     return out
+
+
+def group_alphabet(pattern, name):
+    """the set of characters (of the analysis universe) that can occur inside a match of the named group of `pattern`; None if the group is absent"""
+    import re._parser as _rp
+    import re._constants as _rc
+    tree = _rp.parse(pattern)
+    gid = tree.state.groupdict.get(name)
+    if gid is None:
+        return None
+    found = []
+
+    def find(items):
+        for op, av in items:
+            if op is _rc.SUBPATTERN:
+                if av[0] == gid:
+                    found.append(av[3])
+                find(av[3])
+            elif op is _rc.BRANCH:
+                for br in av[1]:
+                    find(br)
+            elif op in (_rc.MAX_REPEAT, _rc.MIN_REPEAT):
+                find(av[2])
+            elif op in (_rc.ASSERT, _rc.ASSERT_NOT):
+                find(av[1])
+    find(list(tree))
+    if not found:
+        return None
+    out = set()
+
+    def collect(items):
+        for op, av in items:
+            if op in (_rc.LITERAL, _rc.NOT_LITERAL, _rc.ANY, _rc.IN):
+                out.update(chars_of(op, av))
+            elif op is _rc.SUBPATTERN:
+                collect(av[3])
+            elif op is _rc.BRANCH:
+                for br in av[1]:
+                    collect(br)
+            elif op in (_rc.MAX_REPEAT, _rc.MIN_REPEAT):
+                collect(av[2])
+            elif op is _rc.AT:
+                pass
+            else:
+                raise AnalysisError('unsupported regex op %s inside group %s' % (op, name))
+    collect(found[0])
+    return out
